@@ -140,7 +140,7 @@ inductive AzRes where
   | ok (b : Blob) (s : AzSt)
   /-- UnexpectedEOFError -/
   | eofErr (s : AzSt)
-  /-- azure.core.exceptions.HttpResponseError(416) escapes -/
+  /-- azure.core.exceptions.HttpResponseError(416) escapes (only the stream before commit 86ee8e0ea) -/
   | http416 (s : AzSt)
   deriving Repr
 
@@ -150,9 +150,42 @@ def fill (buf : Blob) (cs : List Blob) (n : Nat) : Blob × List Blob :=
   | [] => (buf, [])
   | c :: cs' => if buf.length < n then fill (buf ++ c) cs' n else (buf, c :: cs')
 
-/-- `read(-1)`: `download_blob(offset=self._offset, length=self._length)`, `readall()`, `_eof = True`
-(only `ResourceNotFoundError` is caught here) -/
+/-- `read(-1)`: `download_blob(offset=self._offset, length=self._length)`, `readall()`, `_eof = True`;
+a 416 answer (positioned at or past the end of the blob) means nothing is left: `_eof = True; return b''` -/
 def AzSt.readAll (blob : Blob) (a : AzSt) : AzRes :=
+  if a.eof then .ok [] a
+  else
+    let a' := { a with log := a.log ++ [(a.offset, a.length)] }
+    match azDownload blob a.offset a.length with
+    | none => .ok [] { a' with eof := true }
+    | some data => .ok data { a' with eof := true }
+
+/-- `read(n)`, `n ≥ 0`: after the bytes are cut off the buffer, `_offset += len(data)`, `_length -= len(data)` (if a length was
+given) and the stream is at EOF when `len(data) < n or self._length == 0` -/
+def AzSt.read (ch : Blob → List Blob) (blob : Blob) (a : AzSt) (n : Nat) : AzRes :=
+  if a.eof then .ok [] a
+  else
+    let go (cs : List Blob) (log : List (Nat × Option Nat)) : AzRes :=
+      let r := fill a.buffer cs n
+      let data := r.1.take n
+      let len' := a.length.map (· - data.length)
+      if data.length < n ∨ len' = some 0 then
+        .ok data { offset := a.offset + data.length, length := len', buffer := [], chunks := none, eof := true, log := log }
+      else
+        .ok data { offset := a.offset + data.length, length := len', buffer := r.1.drop n, chunks := some r.2, eof := false,
+                   log := log }
+    match a.chunks with
+    | some cs => go cs a.log
+    | none =>
+      let log := a.log ++ [(a.offset, a.length)]
+      match azDownload blob a.offset a.length with
+      | none => .eofErr { a with log := log }      -- 416 → UnexpectedEOFError
+      | some data => go (ch data) log
+
+/-! ### the stream before commit 86ee8e0ea (kept to document the two repaired defects, see `Props/C23.lean`) -/
+
+/-- old `read(-1)`: the 416 answer escaped as `HttpResponseError` -/
+def AzSt.readAllOld (blob : Blob) (a : AzSt) : AzRes :=
   if a.eof then .ok [] a
   else
     let a' := { a with log := a.log ++ [(a.offset, a.length)] }
@@ -160,8 +193,8 @@ def AzSt.readAll (blob : Blob) (a : AzSt) : AzRes :=
     | none => .http416 a'
     | some data => .ok data { a' with eof := true }
 
-/-- `read(n)`, `n ≥ 0` -/
-def AzSt.read (ch : Blob → List Blob) (blob : Blob) (a : AzSt) (n : Nat) : AzRes :=
+/-- old `read(n)`: `_length` was never reduced -/
+def AzSt.readOld (ch : Blob → List Blob) (blob : Blob) (a : AzSt) (n : Nat) : AzRes :=
   if a.eof then .ok [] a
   else
     let go (cs : List Blob) (log : List (Nat × Option Nat)) : AzRes :=
@@ -177,7 +210,7 @@ def AzSt.read (ch : Blob → List Blob) (blob : Blob) (a : AzSt) (n : Nat) : AzR
     | none =>
       let log := a.log ++ [(a.offset, a.length)]
       match azDownload blob a.offset a.length with
-      | none => .eofErr { a with log := log }      -- 416 → UnexpectedEOFError
+      | none => .eofErr { a with log := log }
       | some data => go (ch data) log
 
 /-! ## Streams and read patterns -/
@@ -240,7 +273,7 @@ inductive Status where
   | ok
   /-- UnexpectedEOFError -/
   | eof
-  /-- an SDK exception escaped -/
+  /-- an SDK exception escaped (cannot happen any more: `open_from_exact`) -/
   | http416
   /-- AssertionError (`assert length >= 1`) -/
   | assertion
@@ -339,5 +372,24 @@ def piecesAux (c : Nat) : Nat → Blob → List Blob
 
 def pieces (c : Nat) (b : Blob) : List Blob :=
   if c = 0 then (if b = [] then [] else [b]) else piecesAux c b.length b
+
+/-- `open_from(url, start, length=len)` followed by `read` / `readexactly` calls on the Azure stream as it was before
+commit 86ee8e0ea: (status, bytes handed out) -/
+def azRunOld (ch : Blob → List Blob) (blob : Blob) (start : Nat) (len : Option Nat) (calls : List Call) : Status × Blob :=
+  let rec go (a : AzSt) (acc : Blob) : List Call → Status × Blob
+    | [] => (.ok, acc)
+    | c :: cs =>
+      let res := match c with
+        | .read n => a.readOld ch blob n
+        | .readAll => a.readAllOld blob
+        | .exactly n =>
+          match a.readOld ch blob n with
+          | .ok b a' => if b.length = n then .ok b a' else .eofErr a'
+          | r => r
+      match res with
+      | .ok b a' => go a' (acc ++ b) cs
+      | .eofErr _ => (.eof, acc)
+      | .http416 _ => (.http416, acc)
+  go { offset := start, length := len, buffer := [], chunks := none, eof := false, log := [] } [] calls
 
 end HailVerif.RangeRead
